@@ -4,7 +4,7 @@ import re
 import runlib as R
 
 ID = 'C14'
-COQ_TARGETS = ['Props/Properties_C14.vo']
+COQ_TARGETS = ['Props/Properties_C14.vo', 'Proofs/CheckerProofs.vo']
 PROPS_FILES = ['Props/Properties_C14.v']
 THEOREMS = ['C14_domain', 'C14_domain_exact', 'C14_local', 'C14_local_refuted', 'C14_local_partial',
             'C14_parseaddr', 'C14_addrsyntax', 'C14_addrparse', 'C14_xtext', 'C14_safe', 'C14_writes', 'C14_oracle_ref', 'C14_char_sign_independent']
